@@ -135,7 +135,7 @@ func replay(path string, w *tlaio.Writer, st *stats) error {
 			st.Persists++
 		case "crash":
 			line["applied"] = sp.Applied
-			if !x.crash(sp.Applied) {
+			if !x.crash(sp.Applied, sp.Flavour) {
 				diverged = true
 				continue
 			}
